@@ -228,6 +228,19 @@ func (f *Frame) resolveModifies(m Clause) {
 		}
 		key := joinKey(rootKey(pt.Elem()), n.Val)
 		s.modKeys[key] = append(s.modKeys[key], modLoc{Ref: base.T})
+		// a map- or slice-typed field: its contents (as of entry) may be modified too
+		if fv, ok := ctx.sel(base, n.Val).(S); ok {
+			switch ft := fv.Ty.Underlying().(type) {
+			case *types.Map:
+				mi := f.mapInfo(fv.Ty)
+				for _, k := range []string{mi.dom, mi.val, mi.ln} {
+					s.modKeys[k] = append(s.modKeys[k], modLoc{Ref: fv.T})
+				}
+			case *types.Slice:
+				k := "e:" + canonKey(ft.Elem())
+				s.modKeys[k] = append(s.modKeys[k], modLoc{Ref: sliceField("s.ref", fv.T), Idx: "*"})
+			}
+		}
 	case "index", "slice":
 		base := ctx.evalS(n.Kids[0])
 		st, ok := base.Ty.Underlying().(*types.Slice)
@@ -523,12 +536,14 @@ func (f *Frame) applyContract(sig *types.Signature, ct *Contract, env map[string
 	post := pre.clone()
 	lp := &lazyPost{f: f, pre: pre, post: post, limit: allocBefore, mods: mods, havoc: map[string]bool{}}
 	for _, m := range ct.Modifies {
-		key, ref := g.resolveModTarget(m, preView)
-		mods[key] = append(mods[key], modLoc{Ref: ref})
-		// the caller must itself be allowed to modify this location
-		if !f.dry {
-			s.addObl(&Obligation{Name: fmt.Sprintf("%s#frame(call %s modifies %s)", s.C.Key(), calleeName, m.Text), Kind: "frame", Guard: f.cur.reach,
-				Goal: f.writableGoal(ref, key), Pos: pos, Clause: "callee's modifies clause must be covered by the caller's: " + m.Text})
+		for _, kr := range g.resolveModTargets(m, preView) {
+			key, ref := kr[0], kr[1]
+			mods[key] = append(mods[key], modLoc{Ref: ref})
+			// the caller must itself be allowed to modify this location
+			if !f.dry {
+				s.addObl(&Obligation{Name: fmt.Sprintf("%s#frame(call %s modifies %s)", s.C.Key(), calleeName, m.Text), Kind: "frame", Guard: f.cur.reach,
+					Goal: f.writableGoal(ref, key), Pos: pos, Clause: "callee's modifies clause must be covered by the caller's: " + m.Text + " (" + key + ")"})
+			}
 		}
 	}
 	// allocation
@@ -572,6 +587,15 @@ func (f *Frame) applyContract(sig *types.Signature, ct *Contract, env map[string
 		g.hypMode = false
 		s.fact(implies(f.cur.reach, t))
 	}
+	// slices stored in the locations the callee may modify refer to memory that exists after the call
+	for key, locs := range mods {
+		if s.sorts[key] == arrSort("Int", "Slice") {
+			arr := s.hget(post, key, s.sorts[key])
+			for _, l := range locs {
+				s.fact(implies(f.cur.reach, app("<", app("s.ref", app("select", arr, l.Ref)), na)))
+			}
+		}
+	}
 	f.cur = &BState{f.cur.reach, post}
 	return packResults(results)
 }
@@ -581,6 +605,30 @@ func (f *Frame) evalClauseFresh(cl Clause, heap, old HeapView, extra map[string]
 	f.freshOverride = freshBase
 	defer func() { f.freshOverride = saved }()
 	return f.evalClauseView(cl, heap, old, extra)
+}
+
+// resolveModTargets: the (heap key, object) pairs a modifies target stands for; a map- or slice-typed field includes its contents.
+func (f *Frame) resolveModTargets(m Clause, hv HeapView) [][2]string {
+	key, ref := f.resolveModTarget(m, hv)
+	out := [][2]string{{key, ref}}
+	n, err := parseXExpr(m.Text)
+	if err != nil || n.Op != "sel" {
+		return out
+	}
+	ctx := &EvalCtx{f: f, env: f.env, heap: hv, old: hv, bound: map[string]Val{}, pkg: f.pkgName(), where: m.Text}
+	base := ctx.evalS(n.Kids[0])
+	if fv, ok := ctx.sel(base, n.Val).(S); ok {
+		switch ft := fv.Ty.Underlying().(type) {
+		case *types.Map:
+			mi := f.mapInfo(fv.Ty)
+			for _, k := range []string{mi.dom, mi.val, mi.ln} {
+				out = append(out, [2]string{k, fv.T})
+			}
+		case *types.Slice:
+			out = append(out, [2]string{"e:" + canonKey(ft.Elem()), sliceField("s.ref", fv.T)})
+		}
+	}
+	return out
 }
 
 func (f *Frame) resolveModTarget(m Clause, hv HeapView) (key, ref string) {
